@@ -385,7 +385,7 @@ def judge(rec: dict, res: dict) -> dict | None:
             continue
         want = reference(rec, j)
         got = res["outcomes"][j]
-        if got != want:
+        if not ops.same_outcome(op, got, want):
             return {"kind": "outcome-differs-from-first-call", "op_index": j,
                     "signature": {"kind": "outcome-differs-from-first-call", "op_kind": op[0],
                                   "target": _family(rec["targets"][j])},
